@@ -60,6 +60,7 @@ class Recorder:
         self.user_calls = 0  # user action calls (for purity)
         self.enabled = True
         self.blown = False  # the step budget was exceeded somewhere (any thread / task)
+        self.iter_fn = None  # async: returns the event-loop iteration counter (who yielded when)
 
     # ---- helpers
     def now(self) -> float:
@@ -117,7 +118,8 @@ class Tap:
 
     def on_event_received(self, interp, event):
         self.rec.step()
-        self.rec.log.append(("recv", event.type, ev_seq(event), self.rec.now()))
+        self.rec.log.append(("recv", event.type, ev_seq(event), self.rec.now(),
+                             self.rec.iter_fn() if self.rec.iter_fn else None))
         self.rec.fault_site("hook", "on_event_received")
 
     def on_transition(self, interp, from_states, to_states, transition):
